@@ -5,6 +5,8 @@ package props
 // the fork must then behave exactly like the original under the same further blocks and updates.
 
 import (
+	"crypto/sha256"
+	"encoding/hex"
 	"fmt"
 	"sort"
 	"testing"
@@ -17,6 +19,7 @@ import (
 	cfevesting "github.com/chain4energy/c4e-chain/x/cfevesting"
 	vestingtypes "github.com/chain4energy/c4e-chain/x/cfevesting/types"
 	sdk "github.com/cosmos/cosmos-sdk/types"
+	authtypes "github.com/cosmos/cosmos-sdk/x/auth/types"
 	"pgregory.net/rapid"
 )
 
@@ -40,7 +43,23 @@ func balancesDigest(c *c10World, ctx sdk.Context) string {
 	for _, k := range keys {
 		s += k + "=" + m[k].String() + ";"
 	}
-	return s + "supply=" + TotalSupply(c.w.App, ctx).String()
+	s += "supply=" + TotalSupply(c.w.App, ctx).String()
+	// account records (types, vesting schedules, sequences) are part of the observable state too
+	h := sha256.New()
+	var recs []string
+	c.w.App.AccountKeeper.IterateAccounts(ctx, func(a authtypes.AccountI) bool {
+		bz, err := c.w.App.AccountKeeper.MarshalAccount(a)
+		if err != nil {
+			panic(err)
+		}
+		recs = append(recs, a.GetAddress().String()+"="+hex.EncodeToString(bz))
+		return false
+	})
+	sort.Strings(recs)
+	for _, r := range recs {
+		h.Write([]byte(r))
+	}
+	return s + ";accounts=" + hex.EncodeToString(h.Sum(nil))
 }
 
 func TestC12Modules(t *testing.T) {
